@@ -27,6 +27,7 @@ const (
 	OpAtomic
 	OpResume // re-acquire the baton after an external (durable) block
 	OpStart  // first point of a thread
+	OpYield  // spin/poll loop iteration: the thread stays enabled but the default choice moves on (fair scheduling)
 )
 
 // LockState is the modelled state of a mutex (embedded in vsync.Mutex / RWMutex).
@@ -58,6 +59,7 @@ type Step struct {
 	Label   string `json:"l"`
 	Enabled []int  `json:"e"` // enabled thread ids in canonical order
 	Choice  int    `json:"c"` // index into Enabled
+	Costs   []int  `json:"k,omitempty"` // preemption cost (0/1) of each alternative
 	Preempt bool   `json:"p,omitempty"`
 }
 
@@ -116,6 +118,10 @@ func (s *Sched) finish(t *thread, g int64) {
 	atomic.StoreInt32(&t.state, stDone)
 	delete(s.byG, g)
 	s.mu.Unlock()
+	select {
+	case s.arrive <- struct{}{}: // wake the scheduler if it is waiting for fake time to pass
+	default:
+	}
 }
 
 func (s *Sched) self() (*thread, bool) {
@@ -161,7 +167,7 @@ func (s *Sched) Point(kind OpKind, label string, lock *LockState) {
 	}
 	t, fresh := s.self()
 	if !fresh && s.holder.Load() == t {
-		silent := kind == OpResume || (s.Filter != nil && !s.Filter(kind, label))
+		silent := kind == OpResume || (kind != OpYield && s.Filter != nil && !s.Filter(kind, label))
 		if silent && lockFree(kind, lock) {
 			return
 		}
@@ -200,17 +206,52 @@ func (s *Sched) enabled() []*thread {
 		out = append(out, t)
 	}
 	s.mu.Unlock()
-	// canonical order: last running thread first if enabled, then ascending ids
+	// canonical order: last running thread first if enabled (last if it is yielding), then ascending ids
 	if s.last != nil {
 		for i, t := range out {
 			if t == s.last {
-				copy(out[1:i+1], out[:i])
-				out[0] = t
+				if t.kind == OpYield {
+					copy(out[i:], out[i+1:])
+					out[len(out)-1] = t
+				} else {
+					copy(out[1:i+1], out[:i])
+					out[0] = t
+				}
 				break
 			}
 		}
 	}
 	return out
+}
+
+// costs returns the preemption cost of choosing each enabled thread: leaving a runnable, non-yielding
+// thread costs 1; re-choosing a yielding thread while others are enabled costs 1; everything else is free.
+func (s *Sched) costs(en []*thread) []int {
+	c := make([]int, len(en))
+	if s.last == nil {
+		return c
+	}
+	li := -1
+	for i, t := range en {
+		if t == s.last {
+			li = i
+		}
+	}
+	if li < 0 {
+		return c
+	}
+	if s.last.kind == OpYield {
+		if len(en) > 1 {
+			c[li] = 1
+		}
+		return c
+	}
+	for i := range c {
+		if i != li {
+			c[i] = 1
+		}
+	}
+	return c
 }
 
 func (s *Sched) harnessDone() bool {
@@ -278,8 +319,8 @@ func (s *Sched) Run() {
 		for i, e := range en {
 			ids[i] = e.id
 		}
-		s.Steps = append(s.Steps, Step{Thread: t.id, Label: t.label, Enabled: ids, Choice: idx,
-			Preempt: s.last != nil && len(en) > 0 && en[0] == s.last && t != s.last})
+		cs := s.costs(en)
+		s.Steps = append(s.Steps, Step{Thread: t.id, Label: t.label, Enabled: ids, Choice: idx, Costs: cs, Preempt: cs[idx] > 0})
 		s.last = t
 		// drain stale notifications
 		for len(s.arrive) > 0 {
@@ -291,26 +332,18 @@ func (s *Sched) Run() {
 	}
 }
 
-// Drain lets all parked threads (adopted background goroutines) run on, unscheduled, until quiescence.
-// Call after Run when the harness wants to continue using the objects without the scheduler.
+// Drain ends scheduling: points become no-ops and every parked thread is resumed once, so that all
+// goroutines continue free-running (the harness then tears its fixture down normally). Run has
+// returned right after a synctest.Wait, so every thread is parked, blocked or done at this moment.
 func (s *Sched) Drain() {
-	s.aborting.Store(true) // points become no-ops
-	for {
-		synctest.Wait()
-		progressed := false
-		s.mu.Lock()
-		ts := append([]*thread(nil), s.threads...)
-		s.mu.Unlock()
-		for _, t := range ts {
-			if atomic.LoadInt32(&t.state) == stParked {
-				atomic.StoreInt32(&t.state, stRunning)
-				t.resume <- true
-				progressed = true
-				synctest.Wait()
-			}
-		}
-		if !progressed {
-			return
+	s.aborting.Store(true)
+	s.mu.Lock()
+	ts := append([]*thread(nil), s.threads...)
+	s.mu.Unlock()
+	for _, t := range ts {
+		if atomic.LoadInt32(&t.state) == stParked {
+			atomic.StoreInt32(&t.state, stRunning)
+			t.resume <- true
 		}
 	}
 }
@@ -358,6 +391,13 @@ func (s *Sched) Choices() []int {
 		out[i] = st.Choice
 	}
 	return out
+}
+
+// Yield marks one iteration of a polling/spin loop (fair scheduling: see OpYield).
+func Yield(label string) {
+	if s := Active(); s != nil {
+		s.Point(OpYield, label, nil)
+	}
 }
 
 // Hook is the entry used by explicit hook points (verifhook.Point) and harness steps.
